@@ -133,6 +133,7 @@ def main(argv=None) -> int:
 
     parts = []
     errors = []
+    batch_errors: list = []
     for engine_name, quick_runs, thorough_runs in PLAN[prop]:
         runs = args.runs or (quick_runs if args.tier == 'quick' else thorough_runs)
         cfg = core.BatchConfig(prop=prop, tier=args.tier, base_seed=base_seed, runs=runs, workers=args.workers,
@@ -140,8 +141,11 @@ def main(argv=None) -> int:
         try:
             agg = core.run_batch(engine_factory(engine_name), cfg)
         except core.HarnessError as e:
+            # (for instance a worker killed by the hang watchdog.)  The other engines still run: a violation
+            # they find is real whatever happened here, and is reported before the harness error
             _print(f'HARNESS-ERROR {engine_name}: {e}')
-            return 2
+            batch_errors.append((engine_name, str(e)))
+            continue
         agg['engine'] = engine_name
         parts.append(agg)
         errors.extend((engine_name, r, e) for r, e in agg['errors'])
@@ -150,11 +154,13 @@ def main(argv=None) -> int:
     if args.digest_only:
         for agg in parts:
             _print(f'DIGEST {agg["engine"]} {agg["batch_digest"]}')
-        return 2 if errors else 0
+        return 2 if errors or batch_errors else 0
+    found_any = any(agg['violations'] for agg in parts)
     if errors:
         for engine_name, r, e in errors[:3]:
             _print(f'HARNESS-ERROR {engine_name} run {r}: {e}')
         _print(f'HARNESS-ERROR {len(errors)} run(s) raised inside the harness')
+    if (errors or batch_errors) and not found_any:
         return 2
 
     # known findings: replay each stored trace, report it if it still fails
@@ -205,6 +211,8 @@ def main(argv=None) -> int:
         write_evidence(prop, args.tier, base_seed, parts, n_viol, suppressed, wall, replay_paths)
     if n_viol:
         return 1
+    if errors or batch_errors:
+        return 2
     _print(f'OK {prop}: no violation in {sum(a["runs"] for a in parts)} runs ({wall:.1f}s)')
     return 0
 
